@@ -18,7 +18,7 @@ CHECKS = {
  "C10": dict(cat="other", tech="abstract interpretation of optimised LLVM IR, compiled both with clang's default floating-point model and with -frounding-math (constrained intrinsics, nothing folded under the default-environment assumption); fadd/fsub/fmul/fdiv/sqrt primitive forms, sign-bit form for negation; other forms compared by exact IEEE evaluation of the closed forms under four rounding modes",
    text="Every float vector type x configuration: + - * / (compound, ++/--) and sqrt must be exactly one IEEE primitive (no fast-math flag) on the same lanes of both operands; unary minus must be the sign-bit flip. The primitive is the correctly rounded operation under the current MXCSR mode by definition.",
    note=TB, ref="4/C10"),
- "C03": dict(cat="other", tech="abstract interpretation of optimised LLVM IR; boolean normal forms over mask bits under the representation invariant (assume on inputs, guarantee on outputs)",
+ "C03": dict(cat="other", tech="abstract interpretation of optimised LLVM IR; boolean normal forms over mask bits under the representation invariant (assume on inputs, guarantee on outputs); truth tables over argument bits and over memory bits read through pointer arguments (std::array<bool,N>); closed forms containing float compares are evaluated a second time with MXCSR.DAZ set (a mask operation must not depend on the floating-point environment)",
    text="All mask operations of all mask types x configuration (& | ^ ! && || == != count any all none extract<I>/insert<I> for every I, construction from bool / array<bool>, Vector(mask), set_bits, mask(Vector)) are summarised into boolean formulas over the lane truth values and must equal the specified formula; results must be in canonical representation (k-register: bits >= N clear; lane mask: uniform lanes).",
    note=TB + "; memory passed as std::array<bool,N> holds valid bools (0/1)", ref="4/C03"),
  "C04": dict(cat="other", tech="abstract interpretation of optimised LLVM IR; bitwise/shift/rotate normal forms, x86 shift intrinsics by SDM saturation semantics, every compile-time amount enumerated; emulated run-time amounts by a complete case split on the amount (each value substituted, wrapper re-summarised) after a syntactic lane-independence check",
@@ -46,7 +46,7 @@ CHECKS = {
    text="convert<>, converting constructors, mask conversions and bit_cast for every provided pair of types of every configuration must be the identity on the representation (truth value per lane for masks, k-mask upper bits clear); width-1 cross-size conversions must be exactly trunc / sext-iff-signed / zext.",
    note=TB + "; bit_cast analysed in the memcpy variant (C++11, clang)", ref="4/C17"),
  "C05": dict(cat="other", tech="bisimulation equality of optimised function bodies (A-ireq), trap-effect inventory with non-zero-divisor proof over terms, closed-form comparison of the emulations (bounded loops unrolled by the IR->term interpreter until the back-edge condition normalises to false)",
-   text="NARROW CLAIM. Decided for every integer vector type x configuration: (a) x/y, x%y, /=, %= have bodies bisimilar to div(x,y).quot/.rem, so div returns the same pair as / and %; (b) no multi-lane div contains a hardware division whose divisor can be zero (term-level non-zero proof), positive control on width-1; (c) division emulations - loop-free ones and long-division loops with a constant trip bound, unrolled - are compared as closed forms with truncating division on the lane for non-zero divisors (8-bit table-based forms by truth table; otherwise refutable by witness incl. cross-lane probes). NOT decided: value exactness of the long-division and reciprocal emulations where no witness is found (UNDECIDED, listed).",
+   text="NARROW CLAIM. Decided for every integer vector type x configuration: (a) x/y, x%y, /=, %= have bodies bisimilar to div(x,y).quot/.rem, so div returns the same pair as / and %; (b) no multi-lane div contains a hardware division whose divisor can be zero (term-level non-zero proof), positive control on width-1; (c) division emulations - loop-free ones and long-division loops with a constant trip bound, unrolled - are compared as closed forms with truncating division on the lane for non-zero divisors (8-bit table-based forms by truth table; otherwise refutable by witness incl. cross-lane probes); the comparison is repeated with the lanes whose own divisor is invalid masked out on both sides over inputs that contain zero divisors, which decides 'a zero divisor in one lane does not change any other lane' on the refutation side. NOT decided: value exactness of the long-division and reciprocal emulations where no witness is found (UNDECIDED, listed).",
    note=TB + "; lane independence of the SSE2..AVX2 loops is not claimed (cross-lane loop exit condition)", ref="4/C05"),
  "C20": dict(cat="proof", tech="effect inventory over the resolved IR of every prefetch instantiation (no load/store/call other than llvm.prefetch; operand and stride checks)",
    text="Every instantiation of prefetch_read/prefetch_write (3 levels x untyped/typed x default n) at -O1 and -O2 in each analysed configuration contains only address arithmetic, control flow and llvm.prefetch(p+i, rw, 3-level, data) with a positive constant stride; llvm.prefetch has no effect on program behaviour (LangRef) and PREFETCHh never faults (SDM).",
@@ -66,7 +66,7 @@ CHECKS = {
  "C14": dict(cat="other", tech="closed-form summary of div(n, Denominator<T>(d)) from optimised IR; truth-table equivalence with truncating division for the 8-bit types (all 2^16 pairs), boundary-lattice refutation search and UB obligations for wider types; bisimulation of operator forms",
    text="PARTIAL CLAIM, stated as such. Complete for Denominator<uint8_t>/<int8_t>: the closed form in (n, d) is evaluated on every (n, d) pair of the domain against C++ truncating division (this is the property's own exhaustive quantifier for 8-bit types, applied to the summary, not to the program). For 16/32/64-bit types the same comparison runs on the boundary lattice only: a difference or an undefined operation (signed overflow, over-wide shift) on a valid (n, d) is a refutation with its input; nothing found is UNDECIDED, not a pass. / % /= %= are tied to div by body equality, value() must return d, all members must exist.",
    note=TB + "; correctness of the Granlund-Montgomery constants beyond 8 bits is NOT decided; one known finding (d = INT32_MIN)", ref="11.2/C14"),
- "C12": dict(cat="other", tech="closed-form summary from optimised IR compared with exact <cmath> reference functions on rationals (all four rounding modes); forwarding rule for the width-1 / scalar code; refutation by witness only",
+ "C12": dict(cat="other", tech="closed-form summary from optimised IR compared with exact <cmath> reference functions on rationals (all four rounding modes); forwarding rule for the width-1 / scalar code; refutation by witness only; frexp/ldexp/scalbn compare bit patterns (sign of zero results significant, NaNs equal), the others compare numbers; exponent sweep for one-operand functions; default and -frounding-math compilation",
    text="PARTIAL CLAIM, stated as such. frexp (significand and stored exponent), ldexp, scalbn, ilogb, logb, frac, fmax, fmin, fdim of every float vector type x configuration are summarised into closed forms. Decided (HOLDS) only where the body is the C library function itself (width-1 vectors forward to libm: the call is the specification). For the SIMD emulations built from bit operations and float arithmetic the closed form is evaluated exactly (rational arithmetic, four rounding modes) on a lattice of IEEE boundary values against reference implementations of the <cmath> definitions: a difference is a refutation with its input (found on the pinned tree: frexp(-0.0f), ldexp with extreme exponents - replayed on hardware); no difference is UNDECIDED, never a pass. AVX-512 getexp/getmant/scalef/fixupimm forms are unmodelled (UNDECIDED).",
    note=TB + "; floats compared as numbers (+0 == -0, NaN == NaN); fdim not judged for NaN operands or inf-inf; glibc values of FP_ILOGB0/FP_ILOGBNAN", ref="11.2/C12"),
 }
